@@ -118,6 +118,16 @@ theorem c04_lost_update_counterexample :
     (lostRun [.readA, .writeBackA, .writeB]).md = 7 ∧
     (lostRun [.writeB, .readA, .writeBackA]).md = 7 := by decide
 
+def poolRun (evs : List PoolEv) : PoolState := evs.foldl poolStep {}
+
+/-- hand-out of a REQUESTED trial from a snapshot, without the study lock, around an unlocked DeleteTrial
+    (the code before round g's repair): SuggestTrials fails inside (its operation stays pending), which
+    happens in neither serial order -/
+theorem c04_pool_race_counterexample :
+    (poolRun [.snapshotA, .deleteB, .writeBackA]).failedA = true ∧
+    (poolRun [.snapshotA, .writeBackA, .deleteB]).failedA = false ∧
+    (poolRun [.deleteB, .snapshotA, .writeBackA]).failedA = false := by decide
+
 /-- MUTUAL EXCLUSION ⇒ ATOMICITY (the step the coarse model takes for granted).  Two threads, each
     `acquire L; op₁; …; opₙ; release L`, the operations being ARBITRARY functions of the shared state
     (the datastore) and the thread's local state (its request, the copies it read, its response):
